@@ -46,6 +46,15 @@ class C15(core.Check):
             out += [("sse", s, ()), ("sse", s, tuple(range(1, len(s)))), ("sser", "close", s, (), ()), ("sser", "chunked", s, (3, 1, 4), ())]
             w = hp.sser_wire("chunked", s, (2, 5))
             out.append(("sser", "chunked", s, (2, 5), tuple(range(1, len(w)))))
+        # a sequence of streams through one Respondent: dropped inside a line / after a lone CR / inside an event, then reconnect
+        a = b"id: 1\ndata: a\n\ndata: par"
+        b = b"id: 5\nevent: tick\ndata: nine\ndata: ten\n\nretry: 7\n\n"
+        hl = len(hp.sser_wire("close", b"", ()))
+        out.append(("sseq", (("close", a, (), None, ()), ("close", b, (), None, ()))))
+        out.append(("sseq", (("close", b, (), hl + 1, ()), ("close", b, (), None, (hl + 3,)), ("close", a, (), None, ()))))
+        out.append(("sseq", (("close", b"data: x\r", (), None, ()), ("close", b"\ndata: y\n\n", (), None, ()))))
+        out.append(("sseq", (("chunked", b, (3, 5), hp.chunk_boundaries(b, (3, 5))[2], ()), ("chunked", b, (7,), None, ()), ("close", b"data: z\n\n", (), None, ()))))
+        out.append(("sseq", (("close", b"id: 9\nretry: 3\ndata: q\n\nda", (), None, ()), ("close", b"data: no id here\n\n", (), None, ()), ("close", b"id\ndata: r\n\n", (), None, ()))))
         out.append(("sse", b"data: a\r", ()))
         out.append(("sse", b"data: a\r\n", (7,)))       # F18: CR | LF
         out.append(("sse", b"retry: " + b"1" * 4400 + b"\ndata: z\n\n", (10,)))
@@ -55,6 +64,30 @@ class C15(core.Check):
         made = 0
         while made < n:
             s = hp.gen_sse_stream(rng, invalid_utf8=rng.random() < 0.15)
+            if rng.random() < 0.3:      # a sequence of connections through the same Respondent (reconnects)
+                sts = []
+                for _ in range(rng.choice([2, 2, 3, 4])):
+                    st = hp.gen_sse_stream(rng, invalid_utf8=rng.random() < 0.1)
+                    mode = "close" if rng.random() < 0.65 else "chunked"
+                    sizes = tuple(rng.choice([1, 2, 3, 7, 16, 40]) for _ in range(rng.randrange(0, 6)))
+                    w = hp.sser_wire(mode, st, sizes)
+                    hl = len(hp.sser_wire(mode, b"", ())) if mode == "close" else None
+                    r = rng.random()
+                    if mode == "close":      # the connection drops anywhere in the body: inside a line, after a CR, between events
+                        if r < 0.6 and len(st) > 0:
+                            crs = [hl + i + 1 for i, x in enumerate(st) if x == 13]
+                            drop = rng.choice(crs) if crs and rng.random() < 0.3 else hl + rng.randrange(0, len(st) + 1)
+                        else:
+                            drop = None
+                    else:                    # chunked: dropped after a complete chunk (lines and chunks are independent), or complete
+                        bs = hp.chunk_boundaries(st, sizes)
+                        drop = rng.choice(bs) if r < 0.6 else None
+                    wl = len(w) if drop is None else drop
+                    cuts = hp.cuts_for(rng, w[:wl], rng.choice(["none", "two", "uniform", "term", "ones"] if wl < 250 else ["none", "two", "uniform"]))
+                    sts.append((mode, st, sizes, drop, cuts))
+                yield ("sseq", tuple(sts))
+                made += 1
+                continue
             for _ in range(rng.choice([1, 2])):
                 k = rng.random()
                 if k < 0.4:
@@ -99,7 +132,59 @@ class C15(core.Check):
             return None
         return ([_ev(e) for e in ev], leid if leid is not None else b"", None if retry == 100 else retry)
 
+    def _oracle_seq(self, case, obs):
+        """every connection delivers exactly the events its own bytes dispatch (a drop discards the unfinished line and
+        event); last event id and retry are the stream's own when it sets them, else the ones carried over"""
+        bad = []
+        cut, whole = obs
+        if cut != whole:
+            bad.append("fragmented-differs-from-whole")
+        if hp.has_escape(obs):
+            bad.append("exception-escaped")
+            return bad
+        leid, retry = None, 100
+        wires = hp.sseq_wires(case)
+        for (mode, stream, sizes, drop, _), w, (res, tail) in zip(case[1], wires, cut):
+            # the body bytes that arrived on this connection
+            if mode == "close":
+                hl = len(hp.sser_wire(mode, b"", ()))
+                body = stream if drop is None else stream[:max(0, drop - hl)]
+            else:
+                bs = hp.chunk_boundaries(stream, sizes)
+                _, chunks = hp.enc_wire(stream, sizes, [], [])
+                body = stream if drop is None else b"".join(chunks[:bs.index(drop)])
+            ev, own_id, own_retry = hp.whatwg_events(body, want_set=True)
+            if own_id is not None:
+                leid = own_id
+            if own_retry is not None:
+                retry = own_retry
+            dropped_chunked = mode == "chunked" and drop is not None and drop < len(hp.sser_wire(mode, stream, sizes))
+            if dropped_chunked:
+                # cut off between chunks: the response ends as a premature closure; the events so far were delivered
+                if not res or res[-1][0] != "err":
+                    bad.append("dropped-chunked-stream-not-ended")
+                    continue
+                got_ev = [_ev(e) for e in (tail[2] if len(tail) > 2 else [])]
+            else:
+                oks = [m for m in res if m[0] == "ok"]
+                if len(oks) != 1 or len(res) != 1 or oks[0][11] is None:
+                    bad.append("no-event-stream-parsed")
+                    continue
+                m = oks[0]
+                got_ev = [_ev(e) for e in m[11]]
+                if m[12] != leid:
+                    bad.append("last-event-id")
+                if m[13] != retry:
+                    bad.append("retry")
+                if len(tail) > 2 and tail[2]:
+                    bad.append("stray-events")
+            if got_ev != ev:
+                bad.append("events-differ-from-stream")
+        return bad
+
     def oracle(self, case, obs):
+        if case[0] == "sseq":
+            return self._oracle_seq(case, obs)
         bad = []
         cut, whole = obs
         if cut != whole:
@@ -122,10 +207,22 @@ class C15(core.Check):
         return bad
 
     def nontrivial(self, case, obs):
+        if case[0] == "sseq":
+            return sum(len(m[11] or ()) for res, _ in obs[0] for m in res if m[0] == "ok") >= 1
         g = self._got(case, obs[0])
         return bool(hp.case_cuts(case)) and g is not None and len(g[0]) >= 1
 
     def features(self, case, obs):
+        if case[0] == "sseq":
+            f = ["sseq", f"sseq:streams:{len(case[1])}"]
+            for mode, stream, sizes, drop, cuts in case[1]:
+                w = hp.sser_wire(mode, stream, sizes)
+                if drop is None or drop >= len(w):
+                    f.append("sseq:complete:" + mode)
+                else:
+                    last = w[:drop][-1:]
+                    f.append("sseq:drop:" + mode + (":after-cr" if last == b"\r" else ":line-end" if last == b"\n" else ":mid-line"))
+            return f
         f = [case[0] if case[0] == "sse" else "sser:" + case[1]]
         s = case[1] if case[0] == "sse" else case[2]
         g = self._got(case, obs[0])
@@ -150,6 +247,8 @@ class C15(core.Check):
         return hp.shrink_case(case)
 
     def mutate(self, rng, case):
+        if case[0] == "sseq":
+            return list(hp.shrink_case(case))[:40]
         out = []
         d = hp.case_data(case)
         for st in ("ones", "term", "uniform", "two"):
